@@ -254,6 +254,20 @@ constexpr bool is_mc() {
   return grt::is_memory_copyable<T>::value;
 }
 
+// Does the library offer size / serialise / deserialise overloads for a T
+// object?  gSerialize itself is not SFINAE friendly (it fails in its body), so
+// the overload sets it dispatches to are probed.  Used for types whose support
+// depends on the library's is_memory_copyable classification (std::tuple
+// objects: accepted only while clang builds took the __has_trivial_copy branch
+// of ExtraTraits.h).
+template <typename T, typename = void>
+struct can_ser : std::false_type {};
+template <typename T>
+struct can_ser<T, std::void_t<decltype(grt::internal::gSizedObj(std::declval<const T&>())),
+                              decltype(grt::internal::gSerializeObj(std::declval<grt::SerializeBuffer&>(), std::declval<const T&>())),
+                              decltype(grt::internal::gDeserializeObj(std::declval<grt::DeSerializeBuffer&>(), std::declval<T&>()))>>
+    : std::true_type {};
+
 #define C17A_INT(T, NAME)                                                                                              \
   template <>                                                                                                          \
   struct Tr<T> {                                                                                                       \
@@ -546,12 +560,13 @@ struct Tr<galois::TupleOfThree<A, B, C>> {
   }
 };
 
-// a std::tuple OBJECT passed to gSerialize (only compiles where the library's
-// is_memory_copyable accepts it: clang, see ExtraTraits.h)
+// a std::tuple OBJECT passed to gSerialize (only instantiated where can_ser
+// says that the library accepts it)
 template <typename... Ts>
 struct Tr<std::tuple<Ts...>> {
   typedef std::tuple<Ts...> Tup;
-  static constexpr bool exact = true;
+  static constexpr bool lin   = grt::is_memory_copyable<Tup>::value; // memory copy of the whole object
+  static constexpr bool exact = lin || (Tr<Ts>::exact && ...);
   template <size_t... I>
   static void make_impl(Src& S, Tup& x, std::index_sequence<I...>) {
     (Tr<Ts>::make(S, std::get<I>(x)), ...);
@@ -559,7 +574,8 @@ struct Tr<std::tuple<Ts...>> {
   static void make(Src& S, Tup& x) {
     size_t start = S.off;
     make_impl(S, x, std::index_sequence_for<Ts...>{});
-    S.off = start + sizeof(Tup); // memory copy of the whole object
+    if (lin)
+      S.off = start + sizeof(Tup);
   }
   template <size_t... I>
   static bool eq_impl(const Tup& a, const Tup& b, std::string& why, std::index_sequence<I...>) {
@@ -839,6 +855,16 @@ struct PackItem : Item {
   bool equal(std::string& why) override { return eq_impl(why, std::index_sequence_for<Ts...>{}); }
 };
 
+// parameter pack that is always read back as std::tuple (stands in for the
+// std::tuple-object entries where the library does not serialise tuple objects)
+template <typename... Ts>
+struct TuplePackItem : PackItem<Ts...> {
+  void deser(grt::DeSerializeBuffer& d) override {
+    this->got.reset(new std::tuple<Ts...>());
+    grt::gDeserialize(d, *this->got);
+  }
+};
+
 // memory-copyable value read back through gDeserializeRaw(iterator, T&)
 template <typename T>
 struct RawItem : Item {
@@ -1033,6 +1059,14 @@ static void add_item(const char* name, const char* subject, int cls, int weight,
   g_menu.push_back({name, subject, cls, weight, nullptr, leaf, [] { return (Item*)new I(); }});
 }
 
+template <typename... Ts>
+static void add_tuple(const char* objname, const char* packname, int weight) {
+  if constexpr (can_ser<std::tuple<Ts...>>::value)
+    add<std::tuple<Ts...>>(objname, "std::tuple", C_STDTUPLE, weight, KEY_TUPLE);
+  else
+    g_menu.push_back({packname, "pack", C_PACK, weight, nullptr, true, [] { return (Item*)new TuplePackItem<Ts...>(); }});
+}
+
 using galois::CopyableAtomic;
 using galois::DynamicBitSet;
 using galois::gdeque;
@@ -1142,15 +1176,13 @@ static void build_menu() {
   // nested buffers
   add_item<NestedSer>("nested SerializeBuffer", "nested-SerializeBuffer", C_NESTED, 6, false);
   add_item<NestedDeser>("nested DeSerializeBuffer", "nested-DeSerializeBuffer", C_NESTED, 6, false);
-#ifdef __clang__
-  // (last in the menu, so that the slot numbers of all other entries do not depend on the compiler)
-  // std::tuple objects: accepted by gSerialize only where is_memory_copyable
-  // says so (clang reports __GNUC__ 4, ExtraTraits.h then uses __has_trivial_copy)
-  add<std::tuple<int64_t>>("std::tuple<i64>", "std::tuple", C_STDTUPLE, 1, KEY_TUPLE);
-  add<std::tuple<int32_t, double>>("std::tuple<i32,double>", "std::tuple", C_STDTUPLE, 2, KEY_TUPLE);
-  add<std::tuple<int32_t, int32_t>>("std::tuple<i32,i32>", "std::tuple", C_STDTUPLE, 1, KEY_TUPLE);
-  add<std::tuple<uint8_t, int16_t, int64_t>>("std::tuple<u8,i16,i64>", "std::tuple", C_STDTUPLE, 1, KEY_TUPLE);
-#endif
+  // (last in the menu) std::tuple objects where gSerialize accepts them, else the
+  // same values as a parameter pack read back as std::tuple; same tail layout and
+  // slot numbers either way
+  add_tuple<int64_t>("std::tuple<i64>", "pack(i64)->std::tuple", 1);
+  add_tuple<int32_t, double>("std::tuple<i32,double>", "pack(i32,double)->std::tuple", 2);
+  add_tuple<int32_t, int32_t>("std::tuple<i32,i32>", "pack(i32,i32)->std::tuple", 1);
+  add_tuple<uint8_t, int16_t, int64_t>("std::tuple<u8,i16,i64>", "pack(u8,i16,i64)->std::tuple", 1);
   for (size_t i = 0; i < g_menu.size(); ++i)
     for (int w = 0; w < g_menu[i].weight; ++w)
       g_slots.push_back((int)i);
